@@ -28,7 +28,13 @@ RULE = ("an observation sequence of 1-40 update(value,total) calls x a "
         "combine_simulation_results on grids with 0-100 % overlapping unpacked "
         "values.  Signature = (level, type, accumulate, value class, #chunks, "
         "tree kind, sequence-length class); non-trivial = at least two chunks "
-        "or two operands.")
+        "or two operands.  "
+        "Half of the chunks are built through Result.create; the runner's skip "
+        "counter is present in a random subset of the merged sets; the multi "
+        "generator holds 2-5 parameter combinations in one object "
+        "(append_all_results, then merge_all_results under random groupings); "
+        "combine grids use parameter names whose text order differs from their "
+        "numeric order. ")
 ASSUMPTIONS = ["chunks are non-empty (a MISC result merged with a never-updated "
                "operand is outside 'the last observation wins')",
                "statistics are read through the public to_dict()/getters"]
